@@ -55,6 +55,7 @@ class Recorder:
 
     def __init__(self):
         self.entered = {}
+        self.aliases = [{"given": False, "als": []}] * 3
 
     def __call__(self, event, **f):
         if event == "node_enter":
@@ -96,32 +97,36 @@ def build(D, res="main", mc=1):
 
 
 def express(D, d, xs, S, rng, forms):
-    """Express the node set S as a list of aliases (id / reference / tag) that resolves to exactly S."""
+    """Express the node set S as a list of aliases (id / reference / tag). Returns (aliases for the API, their
+    description for the specification: [c, s, n] with c = "str" (a string: tag or id) or "ref" (node n))."""
     if S is None:
-        return None
+        return None, {"given": False, "als": []}
     tags = D.get("tags", {})
-    out = []
+    out, desc = [], []
     todo = set(S)
-    # a shared tag covers several nodes at once
     if "grp" in forms:
         grp = {int(k) for k, t in tags.items() if "grp" in t}
         if grp and grp <= todo and rng.random() < 0.7:
             out.append("grp")
+            desc.append({"c": "str", "s": "grp", "n": 0})
             todo -= grp
     for k in sorted(todo):
         form = rng.choice(forms)
         shadow = [int(b) for b, t in tags.items() if f"f{k}" in t]   # another node is tagged with this node's id
-        own = [t for t in tags.get(str(k), []) if t != "grp"]   # includes a tag that equals another node's id
+        own = [t for t in tags.get(str(k), []) if t != "grp"]        # includes a tag that equals another node's id
         if form == "tag" and own:
-            out.append(own[-1] if rng.random() < 0.6 else own[0])
-        elif form == "ref":
+            t = own[-1] if rng.random() < 0.6 else own[0]
+            out.append(t)
+            desc.append({"c": "str", "s": t, "n": 0})
+        elif form == "ref" or shadow:
             out.append(d.exec_nodes[f"f{k}"] if rng.random() < 0.5 else xs[k])
-        elif not shadow:
-            out.append(f"f{k}")
+            desc.append({"c": "ref", "s": "", "n": k})
         else:
-            out.append(d.exec_nodes[f"f{k}"])
-    rng.shuffle(out)
-    return out
+            out.append(f"f{k}")
+            desc.append({"c": "str", "s": f"f{k}", "n": 0})
+    order = list(range(len(out)))
+    rng.shuffle(order)
+    return [out[i] for i in order], {"given": True, "als": [desc[i] for i in order]}
 
 
 def observe(D, base, ids, xs, mode, pre, R, X, T, bogus, flag, rng, forms):
@@ -138,11 +143,13 @@ def observe(D, base, ids, xs, mode, pre, R, X, T, bogus, flag, rng, forms):
             _verif.sink = None
             d.setup()
         _verif.sink = rec
-        r = express(D, d, xs, R, rng, forms)
-        x = express(D, d, xs, X, rng, forms)
-        t = express(D, d, xs, T, rng, forms)
+        r, rd = express(D, d, xs, R, rng, forms)
+        x, xd = express(D, d, xs, X, rng, forms)
+        t, td = express(D, d, xs, T, rng, forms)
         if bogus:
             t = (t or []) + ["no-such-node"]
+            td = {"given": True, "als": td["als"] + [{"c": "str", "s": "no-such-node", "n": 0}]}
+        rec.aliases = [rd, xd, td]
         try:
             if mode == 0:
                 ex = d.executor(target_nodes=t, exclude_nodes=x, root_nodes=r)
@@ -175,6 +182,7 @@ def observe(D, base, ids, xs, mode, pre, R, X, T, bogus, flag, rng, forms):
     dup = mask(int(i[1:]) for i, c in rec.entered.items() if i in ids and c > 1)
     if any(i not in ids for i in rec.entered):
         err = 2  # an argument holder executed: arguments are always supplied here
+    observe.aliases = rec.aliases
     return [err, g, e, dup, ret, bad]
 
 
@@ -199,7 +207,8 @@ def selections(D, rng, limit):
 def run_dag(D, rng, limit, forms=("id", "ref", "tag", "grp")):
     """All observations for one DAG description; returns the JSON record for SelCheck."""
     rec = {"n": D["n"], "deps": D["deps"], "kind": D["kind"], "const": D["const"], "tags": D.get("tags", {}),
-           "obs": [], "built": True, "setuparg": D.get("setuparg", 0)}
+           "obs": [], "als": [], "built": True, "setuparg": D.get("setuparg", 0),
+           "tagseq": [D.get("tags", {}).get(str(k), []) for k in range(1, D["n"] + 1)]}
     try:
         base, ids, xs = build(D, res=D.get("res", "main"), mc=D.get("mc", 1))
     except BaseException as exc:  # noqa: BLE001
@@ -222,10 +231,12 @@ def run_dag(D, rng, limit, forms=("id", "ref", "tag", "grp")):
                 rec["obs"].append([mode, mask(setup_nodes) if pre else 0,
                                    -1 if R is None else mask(R), -1 if X is None else mask(X),
                                    -1 if T is None else mask(T), bogus] + off + on)
+                rec["als"].append(observe.aliases)
     for pre in ([0, 1] if setup_nodes else [0]):
         off = observe(D, base, ids, xs, 2, pre, None, None, None, 0, 0, rng, forms)
         on = observe(D, base, ids, xs, 2, pre, None, None, None, 0, 1, rng, forms)
         rec["obs"].append([2, mask(setup_nodes) if pre else 0, -1, -1, -1, 0] + off + on)
+        rec["als"].append([{"given": False, "als": []}] * 3)
     return rec
 
 
